@@ -554,14 +554,19 @@ func (e *Enc) invoke(f *frame, st *State, in *ssa.Call, recv Val, args []Val, re
 	e.oblige("nil", e.site(in), in.Pos(), fmt.Sprintf("(not (= %s 0))", recv.Sub[0].T), e.safetyProps(), "")
 	iface := c.Value.Type()
 	key := typeKey(iface) + "." + c.Method.Name()
+	mods, top := e.w.invokeMods(c)
 	if lc, ok := libInvoke[key]; ok {
+		// in-package implementations may also write their own fields; the ghost
+		// cursors of distinct stream objects are independent (assumption)
+		m2 := map[string]bool{}
+		for k := range mods {
+			if k != "Lib#rscur" {
+				m2[k] = true
+			}
+		}
+		e.havocHeaps(st, m2, false, "", false)
 		return lc(e, f, st, in, recv, args, resShape)
 	}
-	// interface contract
-	if ic, ok := e.w.contracts.Funcs["iface "+key]; ok {
-		_ = ic
-	}
-	mods, top := e.w.invokeMods(c)
 	if top {
 		e.noteHavoc("invoke " + key)
 	}
